@@ -11,6 +11,7 @@ import (
 	"net/http"
 	"net/url"
 	"path"
+	"strings"
 
 	"github.com/friendsofgo/errors"
 	"github.com/pquerna/otp"
@@ -263,7 +264,9 @@ func (t *TOTP) PostConfirm(w http.ResponseWriter, r *http.Request) error {
 	}
 
 	totpCodeValues := MustHaveTOTPCodeValues(validator)
-	inputCode := totpCodeValues.GetCode()
+	// The validator ignores surrounding whitespace, what is remembered as the
+	// last used code must be what it actually compared
+	inputCode := strings.TrimSpace(totpCodeValues.GetCode())
 
 	ok = totp.Validate(inputCode, totpSecret)
 	if !ok {
@@ -486,7 +489,9 @@ func (t *TOTP) validate(r *http.Request) (User, string, error) {
 		return user, t.Localizef(r.Context(), authboss.TxtSuccess), nil
 	}
 
-	input := totpCodeValues.GetCode()
+	// The validator ignores surrounding whitespace: compare and remember the
+	// code as it reads it, otherwise "123456 " replays "123456"
+	input := strings.TrimSpace(totpCodeValues.GetCode())
 
 	if oneTime, ok := user.(UserOneTime); ok {
 		oldCode := oneTime.GetTOTPLastCode()
